@@ -49,17 +49,17 @@ func main() {
 	}
 	if err := loadDefs(*defsPath); err != nil {
 		fmt.Fprintln(os.Stderr, "harness:", err)
-		os.Exit(2)
+		os.Exit(4)
 	}
 	sf, err := os.Open(*scenPath)
 	if err != nil {
 		fmt.Fprintln(os.Stderr, "harness:", err)
-		os.Exit(2)
+		os.Exit(4)
 	}
 	outFile, err = os.OpenFile(*outPath, os.O_APPEND|os.O_CREATE|os.O_WRONLY, 0o644)
 	if err != nil {
 		fmt.Fprintln(os.Stderr, "harness:", err)
-		os.Exit(2)
+		os.Exit(4)
 	}
 	out = bufio.NewWriterSize(outFile, 1<<20)
 	go watchdog()
@@ -73,7 +73,7 @@ func main() {
 				var sc Scenario
 				if e := json.Unmarshal(line, &sc); e != nil {
 					fmt.Fprintln(os.Stderr, "harness: bad scenario:", e)
-					os.Exit(2)
+					os.Exit(4)
 				}
 				first := 0
 				if idx == *skip {
